@@ -1,4 +1,4 @@
-import Qv.Proofs.AnnealFront
+import Qv.Proofs.AnnealBool
 /-!
 # C11 — Annealers return well-formed results whose values match their states
 
@@ -267,6 +267,108 @@ theorem value_puso (src : Src ρ Rat) (H : Obj) (P : Params ρ Rat) (rs : List R
         runPuso_value src P _ rs h (relabelInit_good _ _ _ _ hinit hi) hd r hr
       exact ⟨s, hg.1, hg.2, hst, hv⟩
 
+/-! ### T11.3 over the input's own terms and labels -/
+
+/-- **Labelled `QUSO` through `anneal_quso`.**  `hmap` is the mapping bijection in the form C14 proves it
+(`Qv.C14.inv_history`: `mapping`/`reverse_mapping` mutually inverse between the reported variables and
+`0..num_binary_variables-1`), read on `Obj`: `mapping` has as many entries as there are variables.
+Then every state's labels are exactly the mapped labels, its values are in `{1,-1}`, and the value is the
+model's **own terms** evaluated at the state — for every assignment `x` of the labels that agrees with the
+state (the state as a function on labels), offset included. -/
+theorem value_quso_labelled (src : Src ρ Rat) (L : Obj) (P : Params ρ Rat) (rs : List Res)
+    (hk : L.kind = .quso) (h : annealQuso (ratCfg src) L P = .ok rs)
+    (hmap : L.mapping.length = L.vars.length)
+    (hinit : ∀ d, P.init = some d → ∀ p ∈ d, p.2 = 1 ∨ p.2 = -1) :
+    ∀ r ∈ rs, r.state.map Prod.fst = L.mapping ∧ (∀ p ∈ r.state, p.2 = 1 ∨ p.2 = -1) ∧
+      ∀ x : Var → Rat, (∀ p ∈ r.state, x p.1 = p.2) → r.value = eval x L.terms :=
+  annealQuso_labelled src L P rs hk h hmap hinit
+
+/-- **Labelled `QUSO` / `PUSO` / `PCSO` through `anneal_puso`.** -/
+theorem value_puso_labelled (src : Src ρ Rat) (H : Obj) (P : Params ρ Rat) (rs : List Res)
+    (hk : H.kind = .quso ∨ H.kind = .puso ∨ H.kind = .pcso) (h : annealPuso (ratCfg src) H P = .ok rs)
+    (hmap : H.mapping.length = H.vars.length)
+    (hinit : ∀ d, P.init = some d → ∀ p ∈ d, p.2 = 1 ∨ p.2 = -1) :
+    ∀ r ∈ rs, r.state.map Prod.fst = H.mapping ∧ (∀ p ∈ r.state, p.2 = 1 ∨ p.2 = -1) ∧
+      ∀ x : Var → Rat, (∀ p ∈ r.state, x p.1 = p.2) → r.value = eval x H.terms :=
+  annealPuso_labelled src H P rs hk h hmap hinit
+
+/-- **Every `QUSOMatrix` / `QUSO` built by any history of `self[k] += v`** (which is also `cls(d)`):
+no bookkeeping hypothesis is left — the invariant (canonical storage, labels of the terms are reported
+variables, `mapping` enumerates the variables) is proved along the history. -/
+theorem value_quso_built (src : Src ρ Rat) (κ : Kind) (hκ : κ = .qusom ∨ κ = .quso) (ops : Poly) (L : Obj)
+    (hb : Obj.build κ ops = .ok L) (P : Params ρ Rat) (rs : List Res)
+    (h : annealQuso (ratCfg src) L P = .ok rs)
+    (hinit : ∀ d, P.init = some d → ∀ p ∈ d, p.2 = 1 ∨ p.2 = -1) :
+    ∀ r ∈ rs, ∀ x : Var → Rat, (∀ p ∈ r.state, x p.1 = p.2) → r.value = eval x L.terms := by
+  obtain ⟨hI, hk⟩ := build_inv κ ops L hb
+  rcases hκ with rfl | rfl
+  · exact annealQuso_matrix src L P rs hk hI h hinit
+  · intro r hr
+    exact (annealQuso_labelled src L P rs hk h (hI.map_len (by rw [hk]; rfl)) hinit r hr).2.2
+
+/-- the same for `anneal_puso` and the five spin types -/
+theorem value_puso_built (src : Src ρ Rat) (κ : Kind)
+    (hκ : κ = .qusom ∨ κ = .pusom ∨ κ = .quso ∨ κ = .puso ∨ κ = .pcso) (ops : Poly) (H : Obj)
+    (hb : Obj.build κ ops = .ok H) (P : Params ρ Rat) (rs : List Res)
+    (h : annealPuso (ratCfg src) H P = .ok rs)
+    (hinit : ∀ d, P.init = some d → ∀ p ∈ d, p.2 = 1 ∨ p.2 = -1) :
+    ∀ r ∈ rs, ∀ x : Var → Rat, (∀ p ∈ r.state, x p.1 = p.2) → r.value = eval x H.terms := by
+  obtain ⟨hI, hk⟩ := build_inv κ ops H hb
+  rcases hκ with rfl | rfl | rfl | rfl | rfl
+  · exact annealPuso_matrix src H P rs (Or.inl hk) hI h hinit
+  · exact annealPuso_matrix src H P rs (Or.inr hk) hI h hinit
+  · intro r hr
+    exact (annealPuso_labelled src H P rs (Or.inl hk) h (hI.map_len (by rw [hk]; rfl)) hinit r hr).2.2
+  · intro r hr
+    exact (annealPuso_labelled src H P rs (Or.inr (Or.inl hk)) h (hI.map_len (by rw [hk]; rfl)) hinit r hr).2.2
+  · intro r hr
+    exact (annealPuso_labelled src H P rs (Or.inr (Or.inr hk)) h (hI.map_len (by rw [hk]; rfl)) hinit r hr).2.2
+
+/-- **`anneal_qubo`: every result's value is the boolean input model evaluated at the result's boolean
+state, offset included** — for every input type (dict with raw keys, `QUBO`, `QUBOMatrix`, …), every
+source, schedule, visiting order, initial state.  Composition of `qubo_to_quso` (C04 T4.3 `Qv.C04.qubo_to_quso_value`, i.e. `eval_quboToQuso`), the spin
+theorem for the converted model (Matrix or labelled; its bookkeeping invariant is proved along the
+conversion's `+=` history), and `to_boolean`. -/
+theorem value_qubo (src : Src ρ Rat) (Q : Obj) (P : Params ρ Rat) (bs : List Res)
+    (h : annealQubo (ratCfg src) Q P = .ok bs) :
+    ∀ b ∈ bs, ∀ x : Var → Rat, IsBool x → (∀ p ∈ b.state, x p.1 = p.2) → b.value = eval x Q.terms := by
+  unfold annealQubo at h
+  simp only [bind_ok_iff] at h
+  obtain ⟨L, hL, init, hinit, rs, hr, htb⟩ := h
+  obtain ⟨hI, hk, hconv⟩ := quboToQuso_spec Q L hL
+  have hin := booleanToSpinInit_vals _ _ hinit
+  intro b hb x hx hcons
+  obtain ⟨r, hrm, hval, hz⟩ := toBoolean_cons rs bs htb b hb
+  have hzc := hz x hcons
+  have hspin : r.value = eval (b2s x) L.terms := by
+    by_cases hm : Q.kind = .qubom ∨ Q.kind = .pubom
+    · have hk' : L.kind = .qusom := by rw [hk]; simp [kindQuboToQuso, hm]
+      exact annealQuso_matrix src L _ rs hk' hI hr hin r hrm (b2s x) hzc
+    · have hk' : L.kind = .quso := by rw [hk]; simp [kindQuboToQuso, hm]
+      exact (annealQuso_labelled src L _ rs hk' hr (hI.map_len (by rw [hk']; rfl)) hin r hrm).2.2 (b2s x) hzc
+  rw [hval, hspin, eval_quboToQuso (isSpin_b2s hx) hconv, s2b_b2s]
+
+/-- **`anneal_pubo`: value = boolean input model at the boolean state, offset included.** -/
+theorem value_pubo (src : Src ρ Rat) (Pm : Obj) (P : Params ρ Rat) (bs : List Res)
+    (h : annealPubo (ratCfg src) Pm P = .ok bs) :
+    ∀ b ∈ bs, ∀ x : Var → Rat, IsBool x → (∀ p ∈ b.state, x p.1 = p.2) → b.value = eval x Pm.terms := by
+  unfold annealPubo at h
+  simp only [bind_ok_iff] at h
+  obtain ⟨H, hH, init, hinit, rs, hr, htb⟩ := h
+  obtain ⟨hI, hk, hconv⟩ := puboToPuso_spec Pm H hH
+  have hin := booleanToSpinInit_vals _ _ hinit
+  intro b hb x hx hcons
+  obtain ⟨r, hrm, hval, hz⟩ := toBoolean_cons rs bs htb b hb
+  have hzc := hz x hcons
+  have hspin : r.value = eval (b2s x) H.terms := by
+    by_cases hm : Pm.kind = .pubom ∨ Pm.kind = .qubom
+    · have hk' : H.kind = .pusom := by rw [hk]; simp [kindPuboToPuso, hm]
+      exact annealPuso_matrix src H _ rs (Or.inr hk') hI hr hin r hrm (b2s x) hzc
+    · have hk' : H.kind = .puso := by rw [hk]; simp [kindPuboToPuso, hm]
+      exact (annealPuso_labelled src H _ rs (Or.inr (Or.inl hk')) hr (hI.map_len (by rw [hk']; rfl)) hin
+        r hrm).2.2 (b2s x) hzc
+  rw [hval, hspin, eval_puboToPuso (isSpin_b2s hx) hconv, s2b_b2s]
+
 /-! ### T11.4 — `best` has the smallest value -/
 
 /-- After construction by `add_state` (what all four functions do), `best` is one of the results and no
@@ -346,6 +448,24 @@ example : (Anneal.annealPubo (ratCfg Ex.src) Ex.Q (Ex.P true none)).toOption.map
 example : (Anneal.annealQuso (ratCfg Ex.src) { kind := .qusom, terms := [([], 5)] } (Ex.P true none)).toOption
     = some [⟨[], 5, true⟩, ⟨[], 5, true⟩] := by decide +kernel
 example : ({ kind := .qusom, terms := [([], 5)] } : Obj).maxIndex = none := rfl
+
+/-- hypotheses of the label-level theorems: the labelled instance has `len(mapping) = num_binary_variables`;
+objects are reachable by `+=` histories (with an unsorted and a repeated-label key); a boolean assignment
+agreeing with the boolean state `{0: 0, 1: 1}` of the `anneal_qubo` example exists -/
+example : Ex.Lq.kind = .quso ∧ Ex.Lq.mapping.length = Ex.Lq.vars.length := ⟨rfl, rfl⟩
+example : (Obj.build .quso [([7, 5], 1), ([7], -1/2), ([], 3), ([9, 9, 5, 9], -2)]).toOption.map
+    (fun o => (o.mapping, o.vars)) = some ([7, 5, 9], [5, 7, 9]) := by decide +kernel
+example : (Obj.build .pusom [([2, 0, 1], 1), ([1], -1/2), ([2, 0, 1], -1)]).toOption.map
+    (fun o => (o.terms, o.maxIndex)) = some ([([1], -1/2)], some 2) := by decide +kernel
+example : (Anneal.annealQubo (ratCfg Ex.src) Ex.Q (Ex.P false (some [(0, 1), (1, 0)]))).toOption.map
+    (fun rs => rs.map (fun r => (r.state, r.value))) = some [([(0, 0), (1, 1)], -1/2), ([(0, 0), (1, 1)], -1/2)] := by
+  decide +kernel
+example : IsBool (fun i => if i = 1 then 1 else 0) ∧
+    ∀ p ∈ [((0 : Var), (0 : Int)), (1, 1)], (fun i : Var => if i = 1 then (1 : Rat) else 0) p.1 = p.2 := by
+  refine ⟨fun i => by by_cases h : i = 1 <;> simp [h], ?_⟩
+  intro p hp
+  simp only [List.mem_cons, List.mem_nil_iff, or_false] at hp
+  rcases hp with rfl | rfl <;> simp
 
 /-- `best` of a three-element list with a tie -/
 example : (best [⟨[], 2, true⟩, ⟨[(0, 1)], 1, true⟩, ⟨[(0, -1)], 1, true⟩]).map (·.value) = some 1 := by
